@@ -11,7 +11,7 @@ import ast
 import z3
 
 from tpv import core, tlib
-from tpv.core import zint, zreal, Sym, Dim
+from tpv.core import zint, zreal, zbool, Sym, Dim
 from tpv.spec import scenario, RowFn
 from tpv.absdom import abstract_domain, coords_of
 from .geom import POINTS, R1, R2, tensor_of, cols
@@ -531,6 +531,94 @@ for _prop in ("C01", "C02"):
     _k.__name__ = "cut_intersection_random_n"
     _k.__doc__ = _inside_random_n.__doc__
     scenario(_prop, [SH + "_inside_random_with_n", SH + "_random_points_inside", SH + "_check_in_b", CUT + ".sample_random_uniform", INTER + ".sample_random_uniform"], configs=["cut", "intersection"])(_k)
+
+
+def _inside_random_one(S, prop):
+    """CutDomain / IntersectionDomain.sample_random_uniform(n = 1, params): sampler_helper._random_points_if_n_eq_1.
+    While-loop contract: final_points is [K', dim], found_valid is [K', 1] with K' = max(len(params), 1), and every
+    row r with found_valid[r] lies in A and (not) in B at parameter row r.  At exit `all(found_valid)` gives the
+    postcondition for every row.  Termination not proved."""
+    from tpv.spec import LoopSpec
+    from tpv.tlib import Tensor
+
+    op, withp = S.cfg.split("/")
+    A, B, dom = mk_bool(S, op, with_params=(withp == "K"))
+    invert = op == "cut"
+    if withp == "K":
+        K = S.int("K", 1)
+        Tt = S.tensor("tt", [K, 1])
+        params = S.new(POINTS, Tt, S.new(R1, "t"))
+        pv = lambda r: [zreal(Tt.val.at([(r,), ()]))]
+        rows = K
+    else:
+        params, pv, rows = empty_points(S), (lambda r: []), 1
+
+    def Pk(r, row):
+        inb = B.in_pred(row, pv(r))
+        return z3.And(A.in_pred(row, pv(r)), z3.Not(inb) if invert else inb)
+
+    fq = SH + "_random_points_if_n_eq_1"
+    rdim = core.dim_of(rows)
+
+    def rowterm(comp):
+        return zint(comp[0]) if comp else z3.IntVal(0)
+
+    def make(I_, env, _):
+        FV = S.tensor(core.fresh_name("FV"), [rows, 1], dtype="bool", mutable=True)
+        FV0 = FV.val  # the value at loop head (the cell FV is updated in place by the body)
+        FPname = core.fresh_name("FP")
+        f = z3.Function(FPname, z3.IntSort(), z3.IntSort(), z3.RealSort())
+
+        def fn(idx):
+            r = rowterm(idx[0])
+            row = [f(r, z3.IntVal(c)) for c in range(2)]
+            I_.ctx.axiom(z3.Implies(z3.And(r >= 0, r < zint(rows), zbool(FV0.at([idx[0], ()]))), Pk(r, row)))
+            return core.select_comp(idx[1][0], 2, [(lambda x=x: x) for x in row])
+
+        env.vars["final_points"] = Tensor(core.STensor([rdim, Dim([2])], fn, "real", FPname))
+        env.vars["found_valid"] = FV
+
+    def check(I_, env, _, tag):
+        fp, fv = env.vars.get("final_points"), env.vars.get("found_valid")
+        ok = isinstance(fp, Tensor) and isinstance(fv, Tensor) and fp.val.rank == 2 and fv.val.rank == 2 and fv.val.dtype == "bool"
+        S.ensure(f"search-loop/{tag}:state-shape", ok, kind="inv")
+        if not ok:
+            return
+        S.ensure(f"search-loop/{tag}:one-row-per-parameter-row", z3.And(fp.val.shape[0].size_term() == zint(rows), fv.val.shape[0].size_term() == zint(rows)), kind="inv")
+        S.ensure(f"search-loop/{tag}:column-counts", fp.val.shape[1].concrete() == 2 and fv.val.shape[1].concrete() == 1, kind="inv")
+        if not (fp.val.shape[1].concrete() == 2 and fv.val.shape[1].concrete() == 1 and len(fp.val.shape[0].factors) == len(rdim.factors) == len(fv.val.shape[0].factors)):
+            return
+
+        def goal(q):
+            r = rowterm(q[0])
+            return z3.Implies(zbool(fv.val.at([q[0], ()])), Pk(r, cols(fp.val, q[0], 2)))
+
+        S.forall(f"search-loop/{tag}:every-found-row-lies-in-the-composite-set-at-its-parameter-row", fp, goal, kind="inv")
+
+    S.loop(fq, 0, LoopSpec(make, check, modifies=["final_points", "found_valid"], label="search-loop"))
+    pts = S.method(dom, "sample_random_uniform", 1, None, params)
+    t = tensor_of(pts)
+    ok = t.rank == 2 and t.shape[1].concrete() == 2
+    S.ensure("two-columns", ok)
+    if not ok:
+        return
+    if prop == "C02":
+        S.ensure("one-row-per-parameter-row", t.shape[0].size_term() == zint(rows))
+        S.ensure("space-is-domain-space", S.I.truth(S.I.compare(ast.Eq(), S.getattr(pts, "space"), S.getattr(dom, "space"))))
+        return
+    if len(t.shape[0].factors) != len(rdim.factors):
+        S.ensure("row-structure", False)
+        return
+    S.forall("every-row-in-the-composite-set-at-its-own-parameter-row", t, lambda q: Pk(rowterm(q[0]), cols(t, q[0], 2)),
+             extra_hyps=lambda q: S.schema_instances([q[0]], kinds=("all",)))
+
+
+for _prop in ("C01", "C02"):
+    def _k1(S, _prop=_prop):
+        _inside_random_one(S, _prop)
+    _k1.__name__ = "cut_intersection_random_one_point"
+    _k1.__doc__ = _inside_random_one.__doc__
+    scenario(_prop, [SH + "_inside_random_with_n", SH + "_random_points_if_n_eq_1", SH + "_check_in_b", CUT + ".sample_random_uniform", INTER + ".sample_random_uniform"], configs=["cut/K", "cut/none", "intersection/K", "intersection/none"])(_k1)
 
 
 # ----------------------------------------------------------------------------- C18 boxes of moved domains
